@@ -5,5 +5,6 @@ CONSTANTS
   SepChoice = "all"
   EmitMin = 10
   WithFinal = FALSE
+  AssertRef = TRUE
 INVARIANTS RefAgrees
 CHECK_DEADLOCK FALSE
